@@ -93,7 +93,7 @@ def partition_sig(pat):
     groups = {}
     for i, g in enumerate(pat):
         groups.setdefault(g, []).append(i)
-    return "|".join("=".join(map(str, v)) for v in sorted(groups.values()))
+    return "/".join("=".join(map(str, v)) for v in sorted(groups.values()))
 
 
 def instantiate(sk, names):
